@@ -84,9 +84,15 @@ func (o Omittable[T]) MarshalGQL(w io.Writer) {
 	case Marshaler:
 		marshaler.MarshalGQL(w)
 	case ContextMarshaler:
-		_ = marshaler.MarshalGQLContext(context.Background(), w)
+		if err := marshaler.MarshalGQLContext(context.Background(), w); err != nil {
+			// keep the response well-formed, like WrapContextMarshaler does
+			w.Write(nullLit)
+		}
 	default:
-		b, _ := json.Marshal(value)
+		b, err := json.Marshal(value)
+		if err != nil {
+			b = nullLit
+		}
 		w.Write(b)
 	}
 }
@@ -121,11 +127,16 @@ func (o Omittable[T]) MarshalGQLContext(ctx context.Context, w io.Writer) {
 
 	switch marshaler := value.(type) {
 	case ContextMarshaler:
-		_ = marshaler.MarshalGQLContext(ctx, w)
+		if err := marshaler.MarshalGQLContext(ctx, w); err != nil {
+			w.Write(nullLit)
+		}
 	case Marshaler:
 		marshaler.MarshalGQL(w)
 	default:
-		b, _ := json.Marshal(value)
+		b, err := json.Marshal(value)
+		if err != nil {
+			b = nullLit
+		}
 		w.Write(b)
 	}
 }
